@@ -55,6 +55,7 @@ MANIFEST = {
             'link until it has been expanded), with reverse, with numeric '
             'and false ids (0, empty string), and with the single option '
             '(no cookie: the clicked link alone determines what is open).',
+    'more': 'Also: trees of 7 nodes with ids unique among siblings only; ids with white space at their edges.',
     'note': 'Trusted: the 40-line set model and the HTML row/link parser in '
             'this driver; zlib/json of the standard library to measure the '
             'compressed length of generated states.',
